@@ -72,6 +72,10 @@ pub struct HostState {
     pub faults_consumed: u64,
     pub consumed_at_last_status: u64,
     pub quiet_polls: u64,
+    /// C08: the guest's key directory; when set, the host checks at the instant an attestation request
+    /// ARRIVES that <guid>.key already exists there and holds exactly the issued guid and key
+    pub guest_key_dir: Option<std::path::PathBuf>,
+    pub attest_arrival_violations: Vec<String>,
 }
 
 /// What the host does from the next poll on.
@@ -133,6 +137,8 @@ impl KeyHost {
                 faults_consumed: 0,
                 consumed_at_last_status: 0,
                 quiet_polls: 0,
+                guest_key_dir: None,
+                attest_arrival_violations: Vec::new(),
             })),
         }
     }
@@ -255,6 +261,20 @@ impl HostState {
                 return fault_response(&f);
             }
             let guid = path["/secure-channel/key/".len()..path.len() - "/key-attestation".len()].to_string();
+            if let Some(dir) = &self.guest_key_dir {
+                let f = dir.join(format!("{}.key", guid));
+                match std::fs::read(&f) {
+                    Err(e) => self.attest_arrival_violations.push(format!("attestation of {} arrived but {} cannot be read: {}", guid, f.display(), e)),
+                    Ok(bytes) => match serde_json::from_slice::<serde_json::Value>(&bytes) {
+                        Err(e) => self.attest_arrival_violations.push(format!("attestation of {} arrived but {} is not complete JSON: {}", guid, f.display(), e)),
+                        Ok(v) => {
+                            if v["guid"].as_str() != Some(guid.as_str()) || v["key"].as_str().map(|k| k.to_string()) != self.issued.get(&guid).cloned() {
+                                self.attest_arrival_violations.push(format!("attestation of {} arrived but {} does not hold the issued guid and key", guid, f.display()));
+                            }
+                        }
+                    },
+                }
+            }
             let ok = self.check_signature(r) == Some(true) && r.head.get("x-ms-azure-host-authorization").map(|a| String::from_utf8_lossy(a).contains(&guid)).unwrap_or(false);
             if ok {
                 self.latched = Some(guid);
